@@ -95,9 +95,10 @@ macro_rules! deal_with_sentinel {
             Ok(entry) => {
                 let fut = $self.inner.call($req);
                 Box::pin(async move {
-                    let response = fut.await.map_err(Into::<BoxError>::into)?;
+                    let response = fut.await;
+                    // release the admission whether the inner service succeeded or failed
                     entry.exit();
-                    Ok(response)
+                    response.map_err(Into::<BoxError>::into)
                 })
             }
             Err(err) => match $self.fallback {
